@@ -31,18 +31,20 @@ C11_CONTEXTS = [
     ("invariant", "visitLocation", ("loc", "invariant"), CHANGES, False),
     ("variable initialiser", "visitVariable", ("variable", "init"), CHANGES, False),
     ("block-local initialiser", "visitBlockStatement", ("var", "init"), CHANGES, False),
-    ("instantiation argument", "visitInstance", ("argument",), CHANGES, False),
+    ("instantiation argument", "visitInstance", ("<instance-argument>",), CHANGES, False),
     ("assertion", "visitAssertStatement", ("stat", "expr"), CHANGES, False),
     ("query", "visitProperty", ("expr",), CHANGES, False),
     # contexts protected by the computability gate (see R-READS: a write outside is also a read)
-    ("range lower bound", "checkType", ("l",), COMPUTABLE, True),
-    ("range upper bound", "checkType", ("u",), COMPUTABLE, True),
+    ("range lower bound", "checkType", ("<get_range>", "first"), COMPUTABLE, True),
+    ("range upper bound", "checkType", ("<get_range>", "second"), COMPUTABLE, True),
 ]
 
 
 def gate_table(chk, F, rid, table, extra_ok=()):
     cache = {}
     for name, fnname, subj, pred, must in table:
+        if subj == ("<instance-argument>",):
+            subj = (instance_lookup(F)[4],)
         fn = _fn(F, fnname)
         if fnname not in cache:
             al = G.collect_aliases(fn)
@@ -307,6 +309,46 @@ def run_reads(chk, F):
     ok = "collect_possible_reads" in names and "all_of" in names and "contains" in names
     chk.ob(rid, "isCompileTimeComputable", ok,
            "isCompileTimeComputable is not `all reads are in the computable set`", "%s:%s" % (ifn["file"], ifn["line"]))
+    # ... and nothing else says yes: a `return true` in isCompileTimeComputable (or the function it hands the question
+    # to) is licensed only by a shape that reads nothing - the empty expression or a CONSTANT node.  Any other early
+    # yes (a type test, a cache) bypasses the read set: `A[i]` has a constant type and a mutable index.
+    from ..inline import path_states, strip
+
+    def reads_nothing(c):
+        """+1 if c being true implies the expression reads nothing, else 0"""
+        c = strip(c)
+        if not isinstance(c, dict):
+            return False
+        if c.get("k") == "bin" and c.get("op") == "||":
+            return reads_nothing(c["lhs"]) and reads_nothing(c["rhs"])
+        if c.get("k") == "bin" and c.get("op") == "&&":
+            return reads_nothing(c["lhs"]) or reads_nothing(c["rhs"])
+        if c.get("k") == "call" and c.get("name") == "empty" and c.get("cls") == "UTAP::expression_t":
+            return True
+        if c.get("k") == "bin" and c.get("op") == "==":
+            for a, b in ((c["lhs"], c["rhs"]), (c["rhs"], c["lhs"])):
+                a, b = strip(a), strip(b)
+                if a.get("k") == "call" and a.get("name") == "get_kind" and a.get("cls") == "UTAP::expression_t" and \
+                        b.get("k") == "ref" and b.get("dk") == "enumerator" and b.get("name") == "CONSTANT":
+                    return True
+        return False
+    bad = []
+    for q in sorted(seen):
+        for f in F.fns(q):
+            if f.get("body") is None or (f.get("ret") or "").replace("const ", "").strip() != "bool":
+                continue
+            if not any(p_.get("ct", "").replace("const ", "").strip(" &").endswith("expression_t") for p_ in f["params"]):
+                continue
+            _, ex = path_states(f["body"], lambda e: (),
+                                lambda c, t: ("FREE",) if (t and reads_nothing(c)) else ())
+            for st, bits in ex:
+                e = strip(st.get("e")) if st.get("e") is not None else None
+                if isinstance(e, dict) and e.get("k") == "bool" and e.get("v") and "FREE" not in bits:
+                    bad.append("%s line %s" % (f["name"], st.get("l")))
+    chk.ob(rid, "isCompileTimeComputable|no-other-yes", not bad,
+           "isCompileTimeComputable answers `true` without consulting the read set (%s): an expression that merely has "
+           "a constant type, such as a constant array indexed by a variable, is accepted as a size, bound, initialiser "
+           "or by-value argument" % ", ".join(bad), "%s:%s" % (ifn["file"], ifn["line"]))
 
 
 def run_visitors(chk, F, visitors=("UTAP::CollectChangesVisitor", "UTAP::CollectDependenciesVisitor")):
@@ -407,20 +449,71 @@ def run_visitors(chk, F, visitors=("UTAP::CollectChangesVisitor", "UTAP::Collect
 
 # ---------------------------------------------------------------------------------------- C13
 C13_CONTEXTS = [
-    ("range lower bound", "checkType", ("l",), COMPUTABLE, True),
-    ("range upper bound", "checkType", ("u",), COMPUTABLE, True),
+    ("range lower bound", "checkType", ("<get_range>", "first"), COMPUTABLE, True),
+    ("range upper bound", "checkType", ("<get_range>", "second"), COMPUTABLE, True),
     ("variable initialiser", "visitVariable", ("variable", "init"), COMPUTABLE, True),
 ]
 
 
-def run_c13_instance(chk, F, rid):
-    """visitInstance: value parameters and const-reference parameters need a computable argument."""
+def instance_lookup(F):
+    """visitInstance: (fn, aliases, instance parameter name, name of the local holding the looked-up parameter, name of
+    the local holding its argument, the lookup call)"""
     fn = _fn(F, "visitInstance")
     al = G.collect_aliases(fn)
+    # which locals are "the argument" and "its parameter": the value and the key of the lookup in instance.mapping
+    inst = fn["params"][0]["name"]
+    look = [c for c in calls(fn["body"]) if c.get("name") in ("operator[]", "find", "at") and
+            G.path_of(c.get("recv"), al) == (inst, "mapping") and c.get("args")]
+    if len(look) != 1:
+        raise AnalysisBroken("visitInstance: expected one lookup in %s.mapping, found %d" % (inst, len(look)))
+    key = look[0]["args"][0]
+    while key.get("k") in ("cast", "construct") and (key.get("e") or key.get("args")):
+        key = key["e"] if key.get("k") == "cast" else key["args"][0]
+    pname = key.get("name") if key.get("k") == "ref" else None
+    holder, aname = None, None
+    for d in walk(fn["body"]):
+        if d.get("k") == "decl":
+            for v in d.get("vars", []):
+                if v.get("init") is not None and any(x is look[0] for x in walk(v["init"])):
+                    holder = v
+    def is_expr_type(v):
+        return (v.get("ct") or "").replace("const ", "").strip(" &") == "UTAP::expression_t"
+    if holder is not None and is_expr_type(holder):
+        aname = holder["name"]
+    elif holder is not None:            # an iterator: `auto binding = mapping.find(p); expression_t argument = binding->second;`
+        for d in walk(fn["body"]):
+            if d.get("k") == "decl":
+                for v in d.get("vars", []):
+                    if v.get("init") is not None and is_expr_type(v) and any(
+                            x.get("k") == "ref" and x.get("id") == holder.get("id") for x in walk(v["init"])):
+                        aname = v["name"]
+    if pname is None or aname is None:
+        raise AnalysisBroken("visitInstance: cannot identify the argument / parameter of the mapping lookup")
+    return fn, al, inst, pname, aname, look
+
+
+def run_c13_instance(chk, F, rid):
+    """visitInstance: value parameters and const-reference parameters need a computable argument."""
+    fn, al, inst, pname, aname, look = instance_lookup(F)
     gs = G.find_gates(fn, al)
-    comp = (COMPUTABLE, ("argument",))
-    ref = ("is", ("parameter",))            # parameter.get_type().is(REF)
-    const = ("is_constant", ("parameter",))
+    # the parameters whose bindings are checked are the instance's own (they include those inherited from a partial
+    # instance and the ones this instantiation step binds) - not the root template's
+    origin = None
+    for d in walk(fn["body"]):
+        if d.get("k") == "decl":
+            for v in d.get("vars", []):
+                if v.get("name") == pname and v.get("init") is not None:
+                    origin = G.path_of(v["init"], al)
+        if d.get("k") == "rangefor" and (d.get("var") or {}).get("name") == pname:
+            origin = G.path_of(d.get("range"), al)
+    chk.ob(rid, "visitInstance|argument|own-parameters", origin is not None and origin[:2] == (inst, "parameters"),
+           "visitInstance takes the parameters whose arguments it checks from `%s`, not from %s.parameters: for an "
+           "instance of a partial instance the newly bound parameters are not among them and their arguments are "
+           "never checked (a constant bound to a non-const reference parameter is accepted)" %
+           (".".join(origin) if origin else "?", inst), "%s:%s" % (fn["file"], look[0].get("l")))
+    comp = (COMPUTABLE, (aname,))
+    ref = ("is", (pname,))            # parameter.get_type().is(REF)
+    const = ("is_constant", (pname,))
     # find atom keys as the formula sees them
     found = None
     for g in gs:
@@ -437,7 +530,7 @@ def run_c13_instance(chk, F, rid):
         raise AnalysisBroken("visitInstance: cannot identify the ref/const atoms (%s)" % sorted(found.atoms, key=str))
     ok_val = found.implied_by({comp: False, refk[0]: False})
     ok_cref = found.implied_by({comp: False, refk[0]: True, constk[0]: True})
-    guards_ok = all(G.guard_allowed(i, s, ("argument",), al) for i, s in found.guards) and found.silent_exit is None
+    guards_ok = all(G.guard_allowed(i, s, (aname,), al) for i, s in found.guards) and found.silent_exit is None
     chk.ob(rid, "visitInstance|argument|by-value", ok_val and guards_ok,
            "visitInstance accepts a non-computable argument for a by-value template parameter",
            "%s:%s" % (fn["file"], found.ifnode.get("l")))
